@@ -271,6 +271,115 @@ theorem trigger_unknown_name_touches_nothing (c : Cfg) (f : Nat) (ps : List Nat)
     exact List.any_eq_true.2 ⟨p, hp, by simpa using hge⟩
   simp [run, this]
 
+theorem dedupKeys_keys_nodup : ∀ (l : List (Nat × Int)), ((dedupKeys l).map (·.1)).Nodup := by
+  intro l
+  induction l with
+  | nil => simp [dedupKeys]
+  | cons x rest ih =>
+    obtain ⟨k, v⟩ := x
+    simp only [dedupKeys]
+    split
+    · simp only [List.map_cons, List.nodup_cons]
+      refine ⟨?_, (List.filter_sublist.map _).nodup ih⟩
+      intro hm
+      obtain ⟨kv, hkv, e⟩ := List.mem_map.1 hm
+      have := (List.mem_filter.1 hkv).2
+      simp [e] at this
+    · rename_i hnone
+      simp only [List.map_cons, List.nodup_cons]
+      refine ⟨?_, ih⟩
+      intro hm
+      obtain ⟨kv, hkv, e⟩ := List.mem_map.1 hm
+      have := List.find?_eq_none.1 hnone kv hkv
+      simp [e] at this
+
+/-- `_update` of valid, distinct keys while a batch is open succeeds and installs every value
+(Event parameters aside, which are False afterwards) -/
+theorem update_in_batch_sets (c : Cfg) (f : Nat) (kvs : List (Nat × Int)) (w : World) (hb : w.batch = true)
+    (hlen : w.vals.length = c.nparams)
+    (hval : ∀ kv ∈ kvs, c.valid kv.1 kv.2 = true ∧ kv.1 < c.nparams) (hnd : (kvs.map (·.1)).Nodup)
+    (h : (run c f (.update kvs) w).1 ≠ .oof) :
+    (run c f (.update kvs) w).1 = .ok ∧
+    ∀ kv ∈ kvs, c.isEvent kv.1 = false → getVal (run c f (.update kvs) w).2.1 kv.1 = kv.2 := by
+  cases f with
+  | zero => simp [run] at h
+  | succ f =>
+    simp only [run, hb, if_true] at h ⊢
+    have hu := updateKeys_in_batch_sets c kvs f
+      { w with batch := true, setMode := (kvs.map (·.1)).filter c.isEvent ++ w.setMode } rfl hlen hval hnd
+    generalize run c f (.updateKeys kvs)
+      { w with batch := true, setMode := (kvs.map (·.1)).filter c.isEvent ++ w.setMode } = d at h hu ⊢
+    obtain ⟨r1, w1, o1⟩ := d
+    have hne : r1 ≠ .oof := by intro e; subst e; simp at h
+    obtain ⟨hok, hvals⟩ := hu hne
+    subst hok
+    simp only [Res.andThen]
+    refine ⟨trivial, ?_⟩
+    intro kv hkv hne'
+    have hnot : kv.1 ∉ (kvs.map (·.1)).filter c.isEvent := by
+      intro hm; have := (List.mem_filter.1 hm).2; rw [hne'] at this; cases this
+    simp only [getVal, foldl_set_zero_getD, hnot, if_false]
+    exact hvals kv hkv hne'
+
+/-- **C04 (`update` as a context manager restores the previous values).**  Inside an open batch —
+where no callback can interfere — `with obj.param.update(...): body` leaves every (non-Event)
+parameter named in the update with the value it had before, whatever the body does to it and
+however the body ends.  (Hypotheses: the update itself succeeded, so the block was entered; the
+values held before are valid for their parameters, so they can be assigned back.) -/
+theorem update_context_restores_values (c : Cfg) (f : Nat) (kvs : List (Nat × Int)) (body : List Stmt)
+    (w : World) (hb : w.batch = true) (hlen : w.vals.length = c.nparams)
+    (hcur : ∀ k, k < c.nparams → c.valid k (getVal w k) = true)
+    (hentered : (run c f (.update (dedupKeys kvs)) w).1 = .ok)
+    (h : (run c (f + 1) (.stmt (.updateCtx kvs body)) w).1 ≠ .oof) :
+    ∀ k ∈ (dedupKeys kvs).map (·.1), k < c.nparams → c.isEvent k = false →
+      getVal (run c (f + 1) (.stmt (.updateCtx kvs body)) w).2.1 k = getVal w k := by
+  intro k hk hlt hne
+  simp only [run] at h ⊢
+  -- the restore dictionary
+  generalize hrst : ((dedupKeys kvs).filter (fun kv => decide (kv.1 < c.nparams))).map
+      (fun kv => (kv.1, getVal w kv.1)) = restore at h ⊢
+  have hrv : ∀ kv ∈ restore, c.valid kv.1 kv.2 = true ∧ kv.1 < c.nparams := by
+    intro kv hkv
+    rw [← hrst] at hkv
+    obtain ⟨kv0, h0, rfl⟩ := List.mem_map.1 hkv
+    have := (List.mem_filter.1 h0).2
+    simp only [decide_eq_true_eq] at this
+    exact ⟨hcur _ this, this⟩
+  have hrnd : (restore.map (·.1)).Nodup := by
+    rw [← hrst]
+    simp only [List.map_map, Function.comp_def]
+    exact (List.filter_sublist.map _).nodup (dedupKeys_keys_nodup kvs)
+  have hkin : (k, getVal w k) ∈ restore := by
+    rw [← hrst]
+    obtain ⟨kv0, h0, e⟩ := List.mem_map.1 hk
+    exact List.mem_map.2 ⟨kv0, List.mem_filter.2 ⟨h0, by simpa [e] using hlt⟩, by simp [e]⟩
+  have hfl1 := flags c f (.update (dedupKeys kvs)) w
+  have hvl1 := vals_length c f (.update (dedupKeys kvs)) w
+  generalize run c f (.update (dedupKeys kvs)) w = d1 at h hentered hfl1 hvl1 ⊢
+  obtain ⟨r1, w1, o1⟩ := d1
+  simp only at hentered
+  subst hentered
+  simp only at h hfl1 hvl1 ⊢
+  have hfl2 := flags c f (.stmts body) w1
+  have hvl2 := vals_length c f (.stmts body) w1
+  generalize run c f (.stmts body) w1 = d2 at h hfl2 hvl2 ⊢
+  obtain ⟨r2, w2, o2⟩ := d2
+  simp only at h hfl2 hvl2 ⊢
+  have hr2 : r2 ≠ .oof := by intro e; subst e; simp at h
+  have hb2 : w2.batch = true := by rw [(hfl2 hr2).1, (hfl1 (by simp)).1]; exact hb
+  have hlen2 : w2.vals.length = c.nparams := by rw [hvl2 hr2, hvl1 (by simp)]; exact hlen
+  have hu := update_in_batch_sets c f restore w2 hb2 hlen2 hrv hrnd
+  generalize run c f (.update restore) w2 = d3 at h hu ⊢
+  obtain ⟨r3, w3, o3⟩ := d3
+  have hr3 : r3 ≠ .oof := by
+    intro e; subst e
+    cases r2 <;> simp at h
+  have := (hu hr3).2 (k, getVal w k) hkin hne
+  cases r2 with
+  | oof => exact absurd rfl hr2
+  | ok => simpa using this
+  | raised e => simpa using this
+
 /-! ### Non-vacuity -/
 
 def c04Cfg : Cfg := { bounds := [(none, none), (none, none)], bodies := [] }
@@ -286,5 +395,10 @@ example : (run c04Cfg 40 (.stmts [.set 0 1, .set 0 2]) { c04World with batch := 
     [{ name := 0, old := 0, new := 1 }, { name := 0, old := 1, new := 2 }] := by decide
 example : evsFor false (mkW 0 [0, 1] true false 1 9) [{ name := 0, old := 0, new := 1 }, { name := 0, old := 1, new := 2 }, { name := 1, old := 0, new := 0 }] =
     [{ name := 0, old := 1, new := 2, type := .changed }, { name := 1, old := 0, new := 0, type := .changed }] := by decide
+
+-- with obj.param.update(p0=5): p0 = 7   (inside a batch): p0 is 0 again afterwards, the hypotheses hold
+example : (run c04Cfg 40 (.stmt (.updateCtx [(0, 5)] [.set 0 7])) { c04World with batch := true }).2.1.vals = [0, 0] ∧
+    (run c04Cfg 39 (.update (dedupKeys [(0, 5)])) { c04World with batch := true }).1 = .ok ∧
+    c04Cfg.valid 0 (getVal c04World 0) = true := by decide
 
 end ParamVerif.Dispatch
